@@ -812,7 +812,7 @@ func runHistories(t *testing.T, storage, index string) {
 	spec := vhttp.Spec{Storage: storage, Index: index, Auth: "userpass:" + user + ":" + pass, Share: false}
 	flag.Set("rapid.steps", strconv.Itoa(evid.Pick(40, 110)))
 	flag.Set("rapid.shrinktime", "8s") // every shrink attempt starts a server; 16 tests may fail at once
-	evid.Check(t, 6, 22, func(t *rapid.T) {
+	evid.Check(t, 6, 40, func(t *rapid.T) {
 		srv, err := vhttp.Start(spec, true)
 		if err != nil {
 			t.Fatalf("harness: %v", err)
